@@ -1,6 +1,9 @@
 import Pi2.Sexp
 import Pi2.PrettyTie
 import Pi2.MM.AstEmbed
+import Pi2.MM.ConvSpec
+import Pi2.Gen.MMConv
+import Pi2.MM.ConvCompose
 /-!
 # `pi2gen` — a second driver, for requests that evaluate GENERATED code (`Pi2/Gen/*`, regenerated from /repo on every run)
 
@@ -54,6 +57,49 @@ def prettyGen (mode : String) (symtab : List (Nat × String)) (p : PP) : String 
      | none => "fuel" | some none => "(raise ValueError)" | some (some s) => "s:" ++ s)
   | _, _ => "bad-request"
 
+/-! ## `mmdb` / `mmconv`: the specification `dbOfMDb` and the generated converter on a parsed database -/
+partial def mmTermToStr : MM.Term → String
+  | .var v => s!"(v {v})"
+  | .imp a b => s!"(imp {mmTermToStr a} {mmTermToStr b})"
+  | .app a b => s!"(app {mmTermToStr a} {mmTermToStr b})"
+  | .con c xs => "(" ++ " ".intercalate (s!"con {c}" :: xs.map mmTermToStr) ++ ")"
+
+def mmLblToStr : MM.Lbl → String
+  | .float v => s!"(f {v})" | .impC => "imp" | .appC => "app" | .ctor i => s!"(ctor {i})" | .rule i => s!"(rule {i})"
+  | .p1 => "p1" | .p2 => "p2" | .mp => "mp"
+
+def mmDbToStr (db : MM.DB) : String :=
+  let ctors := " ".intercalate (db.ctors.map fun c => s!"({c.sym} {natsToStr c.args})")
+  let rules := " ".intercalate (db.rules.map fun r => s!"(({" ".intercalate (r.hyps.map mmTermToStr)}) {mmTermToStr r.concl})")
+  s!"(db {natsToStr db.floats} (imp {db.impArgs.1} {db.impArgs.2}) (app {db.appArgs.1} {db.appArgs.2}) (ctors {ctors}) (rules {rules}) (p1 {db.p1.1} {db.p1.2}) (p2 {db.p2.1} {db.p2.2.1} {db.p2.2.2}) (mp {db.mp.1} {db.mp.2}))"
+
+def resTag {α} : ConvSup.Res α → String
+  | .ok _ => "ok" | .raise => "(raise)" | .outside => "(outside)" | .nofuel => "(nofuel)"
+
+/-- the answers of the generated converter to the queries of `translate.py`, in a fixed order -/
+def mmconvRun (mdb : MM.MDb) (target : String) : String :=
+  let nm := MM.ConvSpec.namesOf mdb
+  let σ : String → Nat := fun s => nm.consts.idxOf s
+  match Gen.MMConv.MetamathConverter_init σ fuel default mdb with
+  | .ok c =>
+    let strs (xs : List String) := strsToStr xs
+    let ax (l : String) : String :=
+      match Gen.MMConv.get_axiom_by_name σ fuel c l, Gen.MMConv.get_metavars_in_order σ fuel c l with
+      | .ok a, .ok mio =>
+        let ants := match a.antecedents? with | some l => "(some " ++ " ".intercalate (l.map npatToStr) ++ ")" | none => "none"
+        s!"({hexAtomOfStr l} {npatToStr a.pattern} {strs (ConvSup.sortedStrs a.metavars)} {ants} {strs mio})"
+      | _, _ => s!"({hexAtomOfStr l} raise)"
+    let fps := c._fp_label_to_pattern.map fun (l, ps) => s!"({hexAtomOfStr l} {" ".intercalate (ps.map npatToStr)})"
+    let mvs := c._floating_patterns.map fun v =>
+      match Gen.MMConv.resolve_metavar σ fuel c v with | .ok p => s!"({hexAtomOfStr v} {npatToStr p})" | _ => s!"({hexAtomOfStr v} raise)"
+    let lem := match Gen.MMConv.get_lemma_by_name σ fuel c target with
+      | .ok a => (match a.proof? with
+          | some pf => s!"(lemma {npatToStr a.pattern} {strs (pf.labels.map fun (p : Nat × List Char) => String.ofList p.2)} {natsToStr (pf.labels.map fun (p : Nat × List Char) => p.1)} {natsToStr pf.applied_lemmas})"
+          | none => "(lemma noproof)")
+      | _ => "(lemma raise)"
+    s!"(ok (pcs {strs (ConvSup.sortedStrs (Gen.MMConv.pattern_constructors σ fuel c))}) (prs {strs (ConvSup.sortedStrs (Gen.MMConv.proof_rules σ fuel c))}) (exported {strs (Gen.MMConv.exported_axioms σ fuel c)}) (axioms {" ".intercalate ((Gen.MMConv.axioms σ fuel c).map ax)}) (fps {" ".intercalate fps}) (mvs {" ".intercalate mvs}) (lemmas {strs (Gen.MMConv.lemmas σ fuel c)}) {lem} (consts {strs nm.consts}))"
+  | r => resTag r
+
 def handle (line : String) : String :=
   match parseAll line with
   | none => "bad-request"
@@ -66,6 +112,18 @@ def handle (line : String) : String :=
         | _ => none
       match tab?, ppOfSexp p with
       | some tab, some p => prettyGen mode tab p
+      | _, _ => "bad-request"
+    | "mmdb", [db, target] =>
+      -- the specification `dbOfMDb` (Pi2/MM/ConvSpec.lean) in the protocol of `mmverify` / `mmxlate`, with the numberings
+      match mdbOfSexp db, strOfHexAtom target with
+      | some mdb, some t =>
+        (match MM.ConvSpec.dbOfMDb mdb t with
+         | none => "(outside)"
+         | some sp => s!"(spec {mmDbToStr sp.db} {mmTermToStr sp.goal} ({" ".intercalate (sp.labels.map mmLblToStr)}) {natsToStr sp.steps} (consts {strsToStr sp.names.consts}) (vars {strsToStr sp.names.vars}) (table {" ".intercalate (sp.table.map fun (l, x) => s!"({hexAtomOfStr l} {mmLblToStr x})")}) (frag {ConvTie.InFragmentX mdb t} {ConvTie.InFragment mdb t} {ConvTie.InFragmentM mdb (ConvTie.dbFuel mdb) t} {ConvTie.dbFuel mdb}) (wf {sp.db.wf}))")
+      | _, _ => "bad-request"
+    | "mmconv", [db, target] =>
+      match mdbOfSexp db, strOfHexAtom target with
+      | some mdb, some t => mmconvRun mdb t
       | _, _ => "bad-request"
     | "mmtext", [db] =>
       -- the translated Encoder (Pi2/Gen/MMAst.lean) through the Printer model (Pi2/MMAstSupport.lean): the TEXT, as a hex atom
